@@ -134,8 +134,8 @@ def bfs(expand, events, max_depth, max_states=None, par=1, on_transition=None):
         levels.append(len(frontier))
         frontier = nxt
         depth += 1
-    if not frontier:
-        fixpoint = True
+    if not frontier and not capped:
+        fixpoint = True   # every reachable canonical state was expanded (a capped search proves nothing of the kind)
     return dict(states=seen, transitions=transitions, expansions=expansions, levels=levels, fixpoint=fixpoint,
                 capped=capped, depth_reached=depth, unexpanded=len(frontier), edges=edges)
 
